@@ -1,0 +1,20 @@
+//go:build verif
+
+package stackitem
+
+// Contracts for the verif build tag (comment-only; see /verif/DESIGN.md).
+
+//@ prop C17
+//@ import io github.com/nspcc-dev/neo-go/pkg/io
+
+// Safety contract of the stack item decoder: for every input stream it neither panics nor
+// allocates more than the element limit allows; the reader stays well-formed.
+//@ func (*deserContext).decodeBinary
+//@ requires r != nil && r.BinReader != nil && io.validR(r.BinReader) && r.limit <= MaxDeserialized
+//@ modifies r.limit, r.BinReader.Err, r.BinReader.uv, r.BinReader.r.pos
+//@ opt frame off
+//@ opt stable r.BinReader, r.BinReader.r, r.BinReader.Err, r.BinReader.r.pos, r.limit, r.allowInvalid
+//@ opt alloc-bound 2048
+//@ ensures[reader] io.validR(r.BinReader) && r.BinReader == old(r.BinReader) && r.limit <= old(r.limit)
+//@ loop 0 invariant io.validR(r.BinReader) && r.BinReader == old(r.BinReader) && r.limit <= MaxDeserialized
+//@ loop 1 invariant io.validR(r.BinReader) && r.BinReader == old(r.BinReader) && r.limit <= MaxDeserialized
